@@ -52,6 +52,14 @@ impl Ctx {
     }
     /// a line for the model without an implementation answer (state set-up)
     pub fn directive(&mut self, op: &str) { writeln!(self.out, "{}", op).unwrap(); }
+    /// a fresh scratch directory next to the case file (removed by the caller)
+    pub fn scratch(&mut self, name: &str) -> std::path::PathBuf {
+        let base = std::path::Path::new(&self.out_path).parent().map(|p| p.to_path_buf()).unwrap_or_else(|| std::path::PathBuf::from("."));
+        let d = base.join(format!("scratch-{}-{}-{}", name, std::process::id(), self.rng.next() % 1_000_000));
+        let _ = std::fs::remove_dir_all(&d);
+        std::fs::create_dir_all(&d).expect("scratch dir");
+        d
+    }
     pub fn count(&mut self, key: &str) { *self.hist.entry(key.to_string()).or_insert(0) += 1; }
     pub fn count_n(&mut self, key: &str, n: u64) { *self.hist.entry(key.to_string()).or_insert(0) += n; }
     pub fn finish(mut self) {
